@@ -107,17 +107,18 @@ class Runner:
     def __init__(self, reps):
         self.reps = reps
 
-    def real_part(self, case, mode):
+    def real_part(self, case, mode, user_opts=None):
         src = case.source()
-        real = R.transform(src, mode)
+        real = R.transform(src, mode, user_opts=user_opts)
         forced = None
         if real["status"] == "refused" and not case.tag.startswith("family:"):   # family: verdict + behaviour only
             forced = R.transform(src, mode, force=True)
         return real, forced
 
-    def analyse(self, cases_modes, gfortran=True):
-        """-> list of result dicts"""
-        pre = [self.real_part(c, m) for c, m in cases_modes]
+    def analyse(self, cases_modes, gfortran=True, user_opts=None):
+        """-> list of result dicts.  `user_opts`: ONE dict object handed to every transformation of the batch,
+        in order (script-like history); None = no options argument."""
+        pre = [self.real_part(c, m, user_opts) for c, m in cases_modes]
         lines = []
         for (case, mode), (real, forced) in zip(cases_modes, pre):
             if real["status"] == "accepted":
@@ -174,7 +175,8 @@ def failing(res):
 
 def payload_of(res, ev, why):
     real = res["real"]
-    return {"kind": "failing-input", "why": why, "case": res["case"].to_json(), "mode": res["mode"],
+    return {"kind": "failing-input", "why": why, "history": res.get("history"),
+            "options_passed": real.get("opts_before"), "options_after": real.get("opts_after"), "case": res["case"].to_json(), "mode": res["mode"],
             "loop": [res["case"].header] + res["case"].body + ["enddo"],
             "directive": real.get("directive"), "observed": ev,
             "expected": "every shared variable equals the serial result under every schedule",
@@ -187,6 +189,13 @@ def process(chk, res, findings, stats):
     stats["status"][real["status"]] = stats["status"].get(real["status"], 0) + 1
     stats["tags"][case.tag] = stats["tags"].get(case.tag, 0) + 1
     cdesc = {"loop": [case.header] + case.body, "mode": mode, "status": real["status"], "clauses": impl}
+    if res.get("history"):
+        cdesc["options"] = real.get("opts_before")
+        stats["history_cases"] += 1
+    if real.get("opts_mutated"):
+        agree = False
+        chk.correspondence_broken("the caller's options dict was modified by the OpenMP transformation", cdesc,
+                                  real["opts_before"], real["opts_after"])
     nontrivial = real["status"] == "accepted" and (model.get("trips", 0) >= 2)
     ok = agree
     if not agree:
@@ -229,9 +238,62 @@ def process(chk, res, findings, stats):
     chk.case(cdesc, nontrivial=nontrivial, agreed=ok)
 
 
+HISTORY_LOOPS = [        # (header, body, tag): carried dependences that MUST be refused, and independent controls
+    ("do i = 1, 4", ["c(i) = mod(c(i-1) + b(i), 1003)"], "hist:recurrence"),
+    ("do i = 1, 4", ["c(i) = b(i) + a(i)"], "hist:independent"),
+    ("do i = 2, 5", ["do j = 1, 3", "  m(j+1, i) = m(j, i-1) + b(j)", "enddo"], "hist:wavefront"),
+    ("do i = 1, 4", ["s = s + a(i)"], "hist:reduction"),
+    ("do i = 1, 4", ["t = b(i) + 1", "c(i) = t * 2"], "hist:temp"),
+    ("do i = 4, 1, -1", ["a(i) = a(i+1) + 1"], "hist:anti-dependence"),
+]
+
+
+def make_history(rng, gen, nrandom):
+    """opts0, prelude step names, and the loops the same dict is then applied to"""
+    opts0 = dict(rng.choice(R.OPTS0))
+    k = rng.randint(1, 3)
+    prelude = [rng.choice(R.PRELUDE_STEPS) for _ in range(k)]
+    base = gen.case()
+    loops = [R.Case(h, b, base.scal, base.arr1, base.mk, tag) for h, b, tag in rng.sample(HISTORY_LOOPS, 4)]
+    loops += [gen.case() for _ in range(nrandom)]
+    rng.shuffle(loops)
+    return {"opts0": opts0, "prelude": prelude,
+            "cases": [(c, rng.choice(["paralleldo", "do+parallel"])) for c in loops]}
+
+
+def run_history(chk, runner, hist, findings, stats, earlier_prefix=()):
+    """prelude with ONE shared dict, then every loop of the history with the same dict object"""
+    opts = dict(hist["opts0"])
+    log = R.run_prelude(hist["prelude"], opts)
+    stats["histories"].append({"opts0": hist["opts0"], "prelude": [(e["step"], e["outcome"]) for e in log]})
+    for e in log:
+        if e["mutated"]:
+            stats["options_mutations"] += 1
+            chk.correspondence_broken("the caller's options dict was modified by a transformation",
+                                      {"step": e["step"], "outcome": e["outcome"], "opts0": hist["opts0"],
+                                       "prelude": hist["prelude"]}, e["before"], e["after"])
+    results = runner.analyse(hist["cases"], user_opts=opts)
+    for k, res in enumerate(results):
+        res["history"] = {"opts0": hist["opts0"], "prelude": hist["prelude"],
+                          "earlier": [{"case": c.to_json(), "mode": m} for c, m in hist["cases"][:k]],
+                          "note": "the user never set force=True; the same dict object is passed to every call"}
+        process(chk, res, findings, stats)
+
+
+def corpus_histories():
+    out = []
+    for p in sorted(glob.glob(os.path.join(common.ROOT, "corpus", "C09", "history-*.json"))):
+        d = json.load(open(p))
+        out.append({"opts0": d["opts0"], "prelude": d["prelude"],
+                    "cases": [(R.Case.from_json(x["case"]), x.get("mode", "paralleldo")) for x in d["cases"]]})
+    return out
+
+
 def corpus_cases():
     out = []
     for p in sorted(glob.glob(os.path.join(common.ROOT, "corpus", "C09", "*.json"))):
+        if os.path.basename(p).startswith("history-"):
+            continue
         d = json.load(open(p))
         out.append((R.Case.from_json(d["case"]), d.get("mode", "paralleldo")))
     return out
@@ -253,6 +315,9 @@ def run(chk):
         "schedule(runtime) is requested through the omp_schedule option so that OMP_SCHEDULE selects the schedule",
         "IterIndep (C08's guarantee) is a hypothesis of C09_partial; the check evaluates it per input with the driver",
         "gfortran runs with -fcheck=bounds; a serial run that traps is skipped",
+        "'accepted without a force option' is judged from the options the USER wrote (history's opts0): a transformation "
+        "that writes force=True into the caller's dict does not make later acceptances 'forced'; every call is followed by a "
+        "deep comparison of the caller's dict with a copy taken before",
     ]
     chk.cov["trusted_base"] = ["Lean 4.33.0 kernel", "axioms propext/Classical.choice/Quot.sound only (audited)",
                                "MiniF semantics + PSyIR->MiniF exporter (harness/minif.py), cross-checked against gfortran serially on every accepted case",
@@ -261,7 +326,8 @@ def run(chk):
     chk.lean()
     findings = common.known_findings("C09")
     stats = {"status": {}, "tags": {}, "trips": {}, "hyp": {}, "schedules": 0, "gf_runs": 0, "gf_skipped": 0,
-             "violations": 0, "known_class": {}, "known_class_gfortran": {}}
+             "violations": 0, "known_class": {}, "known_class_gfortran": {}, "history_cases": 0, "histories": [],
+             "options_mutations": 0}
     runner = Runner(reps=(6 if thorough else 2))
     gen = R.Gen(chk.rng)
     n = 320 if thorough else 50
@@ -271,9 +337,17 @@ def run(chk):
     todo += corpus_cases()
     for _ in range(n):
         todo.append((gen.case(), chk.rng.choice(["paralleldo", "paralleldo", "do+parallel"])))
+    # script-like histories: corpus ones, then seeded ones
+    hists = corpus_histories() + [make_history(chk.rng, gen, 2) for _ in range(12 if thorough else 4)]
+    for hist in hists:
+        run_history(chk, runner, hist, findings, stats)
+        if stats["violations"] >= 3:
+            break
     batch = 35
     for k in range(0, len(todo), batch):
-        for res in runner.analyse(todo[k:k + batch]):
+        if stats["violations"] >= 3:
+            break
+        for res in runner.analyse(todo[k:k + batch], user_opts=({"reprod": False} if (k // batch) % 2 else None)):
             process(chk, res, findings, stats)
         if stats["violations"] >= 3:
             break
@@ -293,8 +367,21 @@ def run(chk):
 def replay(payload):
     case, mode = R.Case.from_json(payload["case"]), payload.get("mode", "paralleldo")
     print("\n".join([case.header] + ["  " + b for b in case.body] + ["enddo"]))
-    res = Runner(reps=20).analyse([(case, mode)])[0]
+    hist = payload.get("history")
+    opts = None
+    if hist:
+        opts = dict(hist["opts0"])
+        log = R.run_prelude(hist["prelude"], opts)
+        print("history: options", hist["opts0"], "prelude", [(e["step"], e["outcome"]) for e in log])
+        for x in hist.get("earlier", []):
+            R.transform(R.Case.from_json(x["case"]).source(), x.get("mode", "paralleldo"), user_opts=opts)
+        print("options dict handed to the transformation:", opts)
+    elif payload.get("options_passed") is not None:
+        opts = dict(payload["options_passed"])
+    res = Runner(reps=20).analyse([(case, mode)], user_opts=opts)[0]
     real = res["real"]
+    if real.get("opts_mutated"):
+        print("options dict modified by the call:", real["opts_before"], "->", real["opts_after"])
     print("real transformation:", real["status"], real.get("directive") or real["message"][:200])
     if real["status"] != "accepted":
         print("loop is not accepted: nothing to check")
